@@ -489,6 +489,9 @@ def _tag(x):
     raise ValueError(x)
 
 
+MAX_VALUE_JSON = 20000      # characters of one value's JSON; larger results end a chain (TLC's JSON reader is the limit)
+
+
 def _magnitude(x):
     """an upper bound of |product| and |sum| of all numbers in a nested value"""
     m = [1]
@@ -556,6 +559,8 @@ def record_chains(worker, seed, ntraces, maxops, env=None):
             if op == "reduce" and a["reducer"] in ("prod", "sum") and _magnitude(json.loads(cur_json)) >= 2 ** 30:
                 break                                   # TLC's integers are 32-bit: the chain stops before they overflow
             if r.get("ok") == 1:
+                if len(r.get("json") or "") > MAX_VALUE_JSON:
+                    break                               # a combinatorial blow-up (combinations of combinations): the chain stops
                 if r.get("json_skipped"):
                     problems.append((m, "result fails validity: %r" % r.get("valid")))
                     break
